@@ -209,6 +209,41 @@ func genExec() (string, error) {
 	if pp == nil || vp == nil || cc == nil || hp == nil {
 		return "", fmt.Errorf("controller/block.go: anchors missing")
 	}
+	// the order in which ProduceProposal finalises the cached proposal: header hash first, then the
+	// block result's header and the certificate results that quote the block hash (checkpoint)
+	var finalise []string
+	ast.Inspect(pp.Body, func(n ast.Node) bool {
+		st, ok := n.(ast.Stmt)
+		if !ok {
+			return true
+		}
+		switch v := st.(type) {
+		case *ast.IfStmt:
+			if v.Init != nil && strings.HasPrefix(g.StmtText(v.Init), "_, err = p.Block.BlockHeader.SetHash()") {
+				finalise = append(finalise, "SetHash")
+			}
+		case *ast.AssignStmt:
+			t := g.StmtText(v)
+			switch {
+			case strings.HasPrefix(t, "blockBytes, err = lib.Marshal(p.Block)"):
+				finalise = append(finalise, "Marshal(block)")
+			case t == "p.BlockResult.BlockHeader = p.Block.BlockHeader":
+				finalise = append(finalise, "BlockResult.BlockHeader = header")
+			case strings.HasPrefix(t, "p.Block.BlockHeader.LastQuorumCertificate, p.Block.BlockHeader.Vdf ="):
+				finalise = append(finalise, "header.LastQuorumCertificate, header.Vdf = ...")
+			}
+		case *ast.ExprStmt:
+			t := g.StmtText(v)
+			switch {
+			case strings.HasPrefix(t, "c.CalculateSlashRecipients("):
+				finalise = append(finalise, "CalculateSlashRecipients")
+			case strings.HasPrefix(t, "c.CalculateCheckpoint(p.BlockResult"):
+				finalise = append(finalise, "CalculateCheckpoint(BlockResult)")
+			}
+		}
+		return true
+	})
+	emit("produceProposalFinalise", "ProduceProposal: order of the statements that patch the cached header, hash it, and finalise block result and certificate results", finalise)
 	emit("produceProposalDefers", "ProduceProposal: top-level deferred calls", topDefers(pp))
 	first := ""
 	for _, st := range vp.Body.List {
